@@ -16,10 +16,26 @@ Added later (additive; the events and paths above keep their meaning):
   access of a lazily loaded attribute of the public table goes through an atom object of the given kind
   (FIRST_KINDS).  Meant for the START of a path (a fresh process).  The object served by that very access is kept in
   the optional `obs` dictionary of apply_event (obs["first"]) so that a check can judge it.
-* atom_routes(): every access route of a table to its elements and nuclides."""
+* atom_routes(): every access route of a table to its elements and nuclides.
+* CUSTOMISE-THEN-RELOAD events (round 6): a caller replaces entries of a group by a custom dataset and later goes back
+  to the stock values with <module>.init(table, reload=True):
+    T_dirty / pub_dirty           customise every group that is initialised on T / on the public table (DIRTY_SRC)
+    T_dirty:<g> / pub_dirty:<g>   customise the one group <g> of ORDER
+    T_reload:<g> / pub_reload:<g> call the init function of the one group <g> with reload=True
+                                  (T_reload / pub_reload, from the option events, reload every initialised group)
+  Each group is customised at an entry WITH a value in its table, at entries the table lists as UNKNOWN (density None,
+  structure None, an isotope outside the composition table, an element without a standard atomic weight), at isotopes,
+  by assignment, by in-place change and by deletion.  A table is not judged while it is customised; after the reload
+  of every customised group it is judged again and must serve exactly the embedded tables (judged_tables()).
+  NOT customised: atoms that have no row at all in the table of the group (a covalent radius for Bk, a structure for
+  Rf, an emission line for H, a neutron record for Po or for a single-isotope element): the stock loaders write their
+  rows over the table and leave other entries alone, and no text says that reload=True removes what a custom dataset
+  added."""
 from .common import MachineryError
 
 LAZY = ["covalent_radius", "crystal_structure", "neutron", "xray", "K_alpha", "magnetic_ff"]
+
+GROUPS = ("mass", "density", "neutron", "xray", "covalent_radius", "crystal_structure", "magnetic_ff", "neutron_activation")
 
 EVENTS = ("pub_lazy", "new_T", "T_groups", "new_T2")
 # two more events, used in fixed paths only (they customise data, so the table they touch is no longer
@@ -75,10 +91,53 @@ def full_tables(path, tables):
 CUSTOMISED = {"T_custom": "T", "pub_custom": "public"}      # event -> table whose values are no longer judged
 
 
+def dirty_event(ev):
+    """'T_dirty', 'pub_dirty:mass', 'T_reload:neutron', 'pub_reload' -> (label, 'dirty' | 'reload', group or None);
+    other events -> None."""
+    head, _, group = ev.partition(":")
+    who, _, what = head.partition("_")
+    if who in ("T", "pub") and what in ("dirty", "reload") and (not group or group in GROUPS):
+        return ("T" if who == "T" else "public"), what, (group or None)
+    return None
+
+
 def judged_tables(path, live):
-    """live: [(label, table)] -> those whose data no event of the path customised."""
+    """live: [(label, table)] -> those that serve the stock data at the end of the path: no T_custom / pub_custom
+    event touched them, and every group customised by a *_dirty event was reloaded afterwards."""
     skip = set(CUSTOMISED[e] for e in path if e in CUSTOMISED)
+    dirty = {}
+    for e in path:
+        d = dirty_event(e)
+        if d is None:
+            continue
+        label, what, group = d
+        cur = dirty.setdefault(label, set())
+        if what == "dirty":
+            cur.update([group] if group else GROUPS)
+        elif group:
+            cur.discard(group)
+        else:
+            cur.clear()          # T_reload / pub_reload: every initialised group (a group initialised later is not dirty)
+    skip.update(l for l, groups in dirty.items() if groups)
     return [(l, t) for l, t in live if l not in skip]
+
+
+def restored_labels(path):
+    """Labels of the tables that a *_dirty event of the path customised (judged_tables() says whether they were
+    reloaded afterwards); a check may mark what it finds on such a table as found after customise-and-reload."""
+    return set(d[0] for d in map(dirty_event, path) if d is not None and d[1] == "dirty")
+
+
+RELOADED = ":after-customise-and-reload"
+
+
+def fold_reloaded(acc, suffix=RELOADED):
+    """After all paths were merged: a signature '<cause><suffix>' (found on a table that was customised and reloaded)
+    whose plain '<cause>' was ALSO found on a table that never was customised is not a matter of the reload; its
+    occurrences are added to the plain signature.  What remains with the suffix was seen after a reload only."""
+    for sig in sorted(acc.viol):
+        if sig.endswith(suffix) and sig[:-len(suffix)] in acc.viol:
+            acc.viol[sig[:-len(suffix)]]["count"] += acc.viol.pop(sig)["count"]
 
 
 def base_paths():
@@ -135,6 +194,8 @@ def all_paths():
                     if not _option_ok(q[:i], e):
                         continue
                 add(q)
+    for p in dirty_paths("thorough"):
+        add(p)
     return out
 
 
@@ -163,6 +224,97 @@ EVENT_SRC = {
     "pub_init": (_INITS + "for n in ORDER: INITS[n](P)\n"
                  "pt.xsf.init_spectral_lines(P)\n"),
 }
+
+
+# What a custom dataset does to the entries of one group of table X (see the module docstring for the classes).
+DIRTY_SRC = {
+    "mass": ("X.Fe._mass, X.Fe._mass_unc = 1.0, 0.5; X.Ar._mass, X.Ar._mass_unc = 40.0, 1.0          # atomic-weight rows\n"
+             "X.Tc._mass, X.Tc._mass_unc = 1.0, 0.5; X.Og._mass = 300.0     # no standard atomic weight: isotope-table column\n"
+             "X.Fe[56]._mass, X.Fe[56]._mass_unc = 55.0, 1.0; X.D._mass = 3.0; X.Og[294]._mass = 300.0      # isotopes\n"
+             "X.U[238]._abundance, X.U[238]._abundance_unc = 50.0, 1.0; X.O[18]._abundance = 3.0       # composition rows\n"
+             "X.H[3]._abundance = 1.0; X.Tc[98]._abundance, X.Tc[98]._abundance_unc = 100.0, 1.0     # outside the composition table\n"
+             "X[0]._mass = 2.0; X[0][1]._mass = 2.0; X[0][1]._abundance = 50.0                         # the neutron\n"),
+    "density": ("X.Fe._density, X.Fe.density_caveat = 1.0, 'custom'; X.H._density = 9.0                # rows with a value\n"
+                "X.At._density, X.At.density_caveat = 6.35, 'custom'; X.Og._density = 2.0; X.Cf._density = 15.1\n"
+                "X[0]._density = 1e14                                                                   # rows listed as unknown\n"
+                "X.Cu._density = None                                                                   # a value removed\n"),
+    "neutron": ("N = pt.nsf.Neutron(); N.__dict__.update(vars(X.Ni.neutron)); N.b_c = 99.0; X.Fe.neutron = N   # record replaced\n"
+                "X.Ni[58].neutron.b_c = 99.0; X.Ni[58].neutron.absorption = 1e3; X.Ni[58].neutron.abundance = 1.0\n"
+                "X.H[1].nuclear_spin = '9/2'; X.H.neutron.b_c_complex = 1j; X.Li[6].neutron.bp_i = 5.0; X.Sm.neutron.b_c_i = 1.0\n"
+                "X.Xe.neutron.total = 1.0; X.Eu[151].neutron.b_c = 1.0; X.Kr[83].neutron.b_c = 1.0; X.Kr[83].neutron.total = 1.0     # blank cells\n"
+                "w, b = X.Sm.neutron.nsf_table; X.Sm.neutron.nsf_table = (w, 2*b); X.Gd[157].neutron.nsf_table = (w, b)\n"
+                "X.Lu.neutron.nsf_table = X.Lu[176].neutron.nsf_table; del X.Dy[164].neutron.nsf_table\n"
+                "del X.Fe[56].neutron; X.D.neutron = X.H[1].neutron\n"),
+    "xray": ("X.Cu.K_alpha, X.Cu.K_beta1 = 9.99, 8.88; X.Fe.K_beta1 = 8.88; X.Mo.K_alpha = None; del X.Ag.K_alpha\n"),
+    "covalent_radius": ("X.Fe.covalent_radius = 9.99; X.Cu.covalent_radius_uncertainty = 0.5; X.C.covalent_radius = 0.69\n"
+                        "X.He.covalent_radius_uncertainty = 0.5; X.H.covalent_radius = None; X.Cm.covalent_radius = 9.99\n"),
+    "crystal_structure": ("X.Fe.crystal_structure['a'] = 99.0; X.Cu.crystal_structure = {'symmetry': 'verif'}\n"
+                          "X.Ni.crystal_structure = None; X.Tb.crystal_structure = X.Th.crystal_structure; del X.Co.crystal_structure\n"
+                          "X.Pm.crystal_structure = {'symmetry': 'verif'}; X.At.crystal_structure = dict(X.Po.crystal_structure)\n"
+                          "X.Lr.crystal_structure = {'symmetry': 'verif'}; X[0].crystal_structure = {'symmetry': 'verif'}   # slots listed as None\n"),
+    "magnetic_ff": ("X.Fe.magnetic_ff[2].j0 = (1.0, 0.0, 0.0, 0.0, 0.0, 0.0, 0.0); del X.Co.magnetic_ff[2].j4\n"
+                    "X.Ni.magnetic_ff = {}; del X.Mn.magnetic_ff[2]; X.Cr.magnetic_ff[1].j2 = X.Cr.magnetic_ff[2].j2\n"),
+    "neutron_activation": ("X.Fe[58].neutron_activation[0].thermalXS = 99.0; del X.Co[59].neutron_activation\n"),
+}
+assert sorted(DIRTY_SRC) == sorted(GROUPS)
+
+
+def _dirty_src(who, group):
+    x = "X = tables['T']\n" if who == "T" else "X = P\n"
+    if group:
+        return (x + "if %r not in X.properties: raise RuntimeError('group %s is not initialised on this table')\n" % (group, group)
+                + DIRTY_SRC[group])
+    return x + "".join("if %r in X.properties:\n%s" % (g, "".join("    " + ln + "\n" for ln in DIRTY_SRC[g].rstrip("\n").split("\n")))
+                       for g in GROUPS)
+
+
+def _reload_src(who, group):
+    x = "X = tables['T']\n" if who == "T" else "X = P\n"
+    return (_INITS + x + "INITS[%r](X, reload=True)\n" % group
+            + ("pt.xsf.init_spectral_lines(X)\n" if group == "xray" else ""))
+
+
+for _who in ("T", "pub"):
+    EVENT_SRC["%s_dirty" % _who] = _dirty_src(_who, None)
+    for _g in GROUPS:
+        EVENT_SRC["%s_dirty:%s" % (_who, _g)] = _dirty_src(_who, _g)
+        EVENT_SRC["%s_reload:%s" % (_who, _g)] = _reload_src(_who, _g)
+
+DIRTY_QUICK_GROUPS = ("mass", "density", "neutron")          # the groups of C06 and C07 (C20 adds its own, see c20.py)
+
+
+def dirty_paths(tier="quick", groups=None):
+    """Customise-then-reload paths.  quick: all groups at once on a table with mass+density only, on a table with
+    every group, on the public table as imported and after every lazy group was loaded (each followed by other events:
+    a later private table, the public table touched afterwards), and every group of `groups` customised and reloaded
+    ALONE on a private and on the public table.  thorough: in addition the pair (dirty, reload) of T and of the public
+    table inserted at every position of every ordering of up to three EVENTS, adjacent and with the reload at the end,
+    and every group alone."""
+    groups = DIRTY_QUICK_GROUPS if groups is None else groups
+    out = [("new_T", "T_dirty", "T_reload"),
+           ("new_T", "T_groups", "T_dirty", "T_reload", "new_T2", "pub_lazy"),
+           ("pub_dirty", "pub_reload", "new_T"),
+           ("pub_lazy", "pub_dirty", "pub_reload", "new_T", "T_groups")]
+    def add(p):
+        if p not in out:
+            out.append(p)
+    for g in (GROUPS if tier != "quick" else groups):
+        add(("new_T", "T_groups", "T_dirty:" + g, "T_reload:" + g))
+        add(("pub_lazy", "pub_dirty:" + g, "pub_reload:" + g))
+    if tier != "quick":
+        for p in base_paths():
+            if len(p) > 3:
+                continue
+            for i in range(len(p) + 1):
+                if "new_T" in p[:i]:
+                    add(p[:i] + ("T_dirty", "T_reload") + p[i:])
+                    add(p[:i] + ("T_dirty",) + p[i:] + ("T_reload",))
+                add(p[:i] + ("pub_dirty", "pub_reload") + p[i:])
+                add(p[:i] + ("pub_dirty",) + p[i:] + ("pub_reload",))
+    return out
+
+
+QUICK_PATHS += dirty_paths("quick")
 
 
 def first_event(ev):
